@@ -17,7 +17,7 @@
                      which becomes the "other" file B (the reloadDBName of a restart); a fresh file A is opened
      Merge(c0,n0)    A.mergeHistory(B, c0, n0)                   (prepRestartRun; A is the freshly opened file)
      Split(K)        A.splitDatabase(K, label)                   (B becomes the backup holding everything)
-     Close(ok)       Database.close(ok)
+     Close(ok, via)  Database.close(ok), or Database.__exit__ at the end of a `with` block (ok = no exception passing)
 
    Queries are state functions (Obs): Steps = list(genTimeSteps()), Names = keys(), HasStep = hasTimeStep,
    Hist = getHistories (by serial number), HistLoc = getHistoriesByLocation, HistSel = getHistories(timeSteps=...),
@@ -90,6 +90,7 @@ Keys(f) == {<<f.snaps[i].c, f.snaps[i].n, f.snaps[i].lab>> : i \in 1..Len(f.snap
 PairsOf(f) == {Pair(f.snaps[i]) : i \in 1..Len(f.snaps)}
 PlainPairs(f) == {Pair(f.snaps[i]) : i \in {j \in 1..Len(f.snaps) : f.snaps[j].lab = ""}}
 
+ProbeLabels == <<"", "EOL", "error", "x">>      \* labels hasTimeStep is probed with (the adapter uses the same list)
 AliveSeqOf(lv) == SetToSortSeq({o \in Obj : lv[o]}, <)
 
 (* ---------- queries ---------- *)
@@ -223,16 +224,18 @@ Split(K) ==
     /\ UNCHANGED <<live, loc, par, now, wlog>>
     /\ Ok([n |-> "Split", k |-> SetToSortSeq(K, LAMBDA p, q : PairLess(p, q))])
 
-Close(ok) ==
+\* via = "close": Database.close(ok);  via = "exit": leaving `with db:` -- Database.__exit__ closes as successful iff no
+\* exception is passing through (ok = FALSE: an exception is)
+Close(ok, via) ==
     /\ Writable
     /\ A' = [A EXCEPT !.st = "closed", !.ok = ok]
-    /\ UNCHANGED <<live, loc, par, now, B, wlog>> /\ Ok([n |-> "Close", ok |-> ok])
+    /\ UNCHANGED <<live, loc, par, now, B, wlog>> /\ Ok([n |-> "Close", ok |-> ok, via |-> via])
 
 Mutate == \/ \E o \in Obj, p \in Par, v \in Val : Assign(o, p, v)
           \/ \E o \in Obj, l \in Loc : Move(o, l) \/ Birth(o, l)
           \/ \E pr \in Pairs : Advance(pr[1], pr[2])
 DbStep == \/ \E l \in LabSet : Write(l) \/ WriteRefused(l)
-          \/ \E ok \in BOOLEAN : Rotate(ok) \/ Close(ok)
+          \/ \E ok \in BOOLEAN : Rotate(ok) \/ Close(ok, "close") \/ Close(ok, "exit")
           \/ \E pr \in Pairs : Merge(pr[1], pr[2])
           \/ \E K \in SUBSET PlainPairs(A) : Split(K)
 LoadStep == \E pr \in Pairs, l \in LabSet : Load(pr[1], pr[2], l)
@@ -253,7 +256,10 @@ Obs == [reactor |-> StateView(Cur), now |-> now,
         astate |-> A.st, bstate |-> B.st,
         steps |-> IF Writable THEN Steps(A) ELSE <<>>,
         names |-> IF Writable THEN Names(A) ELSE <<>>,
-        has   |-> IF Writable THEN [i \in 1..Len(A.snaps) |-> TRUE] ELSE <<>>,   \* hasTimeStep(c, n, label) of every listed name
+        \* hasTimeStep(c, n, l) for every listed (c, n) and every label of the probe set: true exactly for the snapshots that exist
+        has   |-> IF Writable THEN [i \in 1..Len(A.snaps) |->
+                                       [j \in 1..Len(ProbeLabels) |-> HasKey(A.snaps, A.snaps[i].c, A.snaps[i].n, ProbeLabels[j])]]
+                  ELSE <<>>,
         hbv   |-> IF Writable THEN TrackView(A) ELSE <<>>,                       \* HistoryTrackerInterface.getBlockHistoryVal
         hts   |-> IF Writable THEN TimeSteps(A) ELSE <<>>,                       \* HistoryTrackerInterface.getTimeSteps
         hist  |-> IF Writable THEN HistView(A, Hist, 1) ELSE <<>>,        \* getHistories(blocks, params)
